@@ -491,3 +491,37 @@ def c04():
 
 
 SPECS.update({"C04": c04})
+
+
+# ------------------------------------------------------------------------------ C15
+def c15():
+    return dict(
+        id="C15", level="exploration", engine="mgrmon",
+        builds=[dict(name="mgrmon", config="asan", harness=["mgrmon.c", "common/sim_data.c", "common/sim_tr.c", "common/sim_cache.c", "common/sim_mon.c"],
+                     wraps=WRAP_SIM + ["rtr_start", "rtr_stop", "rtr_change_socket_state"], lib_cflags=["--param", "asan-stack=0"])],
+        runs=[dict(name="cfg", bin="mgrmon", config="asan", mode="cfg", cases=T(3000, 60000), chunks=32),
+              dict(name="fail", bin="mgrmon", config="asan", mode="fail", cases=T(3200, 80000), chunks=64, timeout=1800)],
+        floors={"c15/rule_a_checks": T(2500, 60000), "c15/rule_b_checks": T(2500, 60000), "c15/rule_c_checks": T(2500, 60000), "c15/rule_d_checks": T(1500, 36000),
+                "c15/order_checks": T(10000, 200000), "c15/remove_last_group_attempts": T(1500, 30000), "c15/add_group_duplicate_preference": T(1000, 20000)},
+        rule=("cfg: direct calls - rtr_mgr_init with 0 groups, with a socket-less group at any position, with a duplicated preference at "
+              "any pair of positions (must fail with *config_out == NULL and no sanitizer report); valid managers of 1-3 groups handed over "
+              "in random preference order, then random sequences of remove-existing / remove-absent / add-with-used-preference: the last "
+              "group must not be removable, a used preference must give RTR_INVALID_PARAM, and after every step rtr_mgr_for_each_group must "
+              "be strictly ascending with rtr_mgr_get_first_group as its head. fail: the real manager with 1-3 groups x 1-2 sockets, every "
+              "socket a real FSM thread over its own scripted cache {sync ok, 1-4 failing connects, fatal Error Report for 1-3 queries, "
+              "no-data for 1-3 queries, silence, success then a fatal answer to a later poll} on the shared virtual clock; all transport "
+              "calls and wrapped sleeps pass a token gate so that exactly one FSM thread runs between two gates and the (seeded) harness "
+              "picks which. Trace monitor on status_fp / rtr_start / rtr_stop: (a) ESTABLISHED is reported for a group only if each of its "
+              "sockets reached ESTABLISHED since it was started; (b) after a group was reported ESTABLISHED, by the reporting thread's next "
+              "gate every less-preferred group has no running socket and was last reported CLOSED; (c) every rtr_stop issued from a "
+              "callback targets a strictly less-preferred group; (d) when a group goes non-ERROR -> ERROR while no other group is reported "
+              "ESTABLISHED, the most-preferred group without running sockets has been started by the reporting thread's next gate; "
+              "rtr_mgr_start starts exactly the most-preferred group. Distinct by hash of the (run, state, status, start, stop) trace."),
+        assumptions=["ASan stack instrumentation is off in this engine (--param asan-stack=0): cancelling a thread from inside the library's cleanup-handler "
+                     "region leaves stale red zones that trip the ASan runtime itself; heap checking stays on",
+                     "interleavings are chosen at transport-call granularity; finer-grained races between manager callbacks are not explored",
+                     "virtual clock shared by all sockets; the order in which time-outs of different sockets expire follows the gate schedule"],
+    )
+
+
+SPECS.update({"C15": c15})
